@@ -20,7 +20,8 @@ PY = "/venv/bin/python"
 
 def main():
     prop = sys.argv[1]
-    src = sys.argv[2] if len(sys.argv) > 2 else "/tmp/wt/%s/_seeded" % prop
+    src = sys.argv[2] if len(sys.argv) > 2 and sys.argv[2] != "-" else "/tmp/wt/%s/_seeded" % prop
+    label = sys.argv[3] if len(sys.argv) > 3 else ""
     for k in sorted(os.listdir(src)):
         d = os.path.join(src, k)
         if not os.path.exists(os.path.join(d, "patch.diff")):
@@ -50,7 +51,7 @@ def main():
             if not ok:
                 print(prop, k, "REJECTED:", ran)
                 continue
-            dst = os.path.join(VERIF, "seeded", "%s-%s" % (prop, k))
+            dst = os.path.join(VERIF, "seeded", "%s-%s%s" % (prop, label, k))
             os.makedirs(dst, exist_ok=True)
             shutil.copy(os.path.join(d, "patch.diff"), dst)
             shutil.copy(demo, dst)
